@@ -16,6 +16,7 @@
 """
 Service requests (parsing, handling, etc).
 """
+import re
 from urllib.parse import parse_qsl, quote
 
 from mapproxy.util.py import cached_property
@@ -243,7 +244,9 @@ class Request(object):
     @cached_property
     def url_scheme(self):
         scheme = self.environ.get('HTTP_X_FORWARDED_PROTO')
-        if not scheme:
+        if not scheme or not re.match(r'^[A-Za-z][A-Za-z0-9+.-]*$', scheme):
+            # not the name of a scheme (a list of values, something like
+            # 'javascript:...' that would end up in links)
             scheme = self.environ['wsgi.url_scheme']
         return scheme
 
